@@ -74,10 +74,10 @@ func Main(prop string) {
 				plan.BoundaryThird, plan.BoundarySample, plan.ModesStdin, plan.ModesKs = -1, 1200, 4, 2
 			}
 		} else if tier == "quick" {
-			plan.DiskPerRoot, plan.DiskRounds = 450, 150
+			plan.DiskPerRoot, plan.DiskRounds = 450, 400
 		} else {
 			plan.BoundarySample = 6000
-			plan.DiskPerRoot, plan.DiskRounds = 600, 400
+			plan.DiskPerRoot, plan.DiskRounds = 600, 1000
 		}
 		if locate {
 			job.Shifts = []int{1, 3, 10, 100}
@@ -127,8 +127,8 @@ func Main(prop string) {
 			if o.Rounds < 3 {
 				o.Rounds = 3 // an interleaving that showed once may need a few attempts to show again
 			}
-			if o.Disk && o.DiskRounds < 300 {
-				o.DiskRounds = 300
+			if o.Disk && o.DiskRounds < 600 {
+				o.DiskRounds = 600
 			}
 			job.Opts = []BatchOpt{o}
 		}
